@@ -15,6 +15,7 @@ import (
 
 func init() {
 	register(&PropertyCheck{ID: "C17", Level: "other", Run: checkC17, Canaries: []Canary{
+		{Name: "subscribe-wellformed-rule-on-an-unlisted-field", Rule: "R17.1", Where: "(*Subscribe).WellFormed", Edits: []Edit{{"subscribe.go", "\tfor _, f := range p.filters {\n\t\tif err := f.WellFormed(); err != nil {", "\tfor _, up := range p.UserProperties {\n\t\tif len(up[0]) == 0 {\n\t\t\treturn newMalformed(p, \"user property\", \"empty key\")\n\t\t}\n\t}\n\tfor _, f := range p.filters {\n\t\tif err := f.WellFormed(); err != nil {"}}},
 		{Name: "alias-conjunct-missing", Rule: "R17.1", Where: "(*Publish).WellFormed", Edits: []Edit{{"publish.go", "\tif len(p.topicName) == 0 && p.topicAlias == 0 {", "\tif len(p.topicName) == 0 {"}}},
 		{Name: "qos2-arm-removed", Rule: "R17.1", Where: "(*Publish).WellFormed", Edits: []Edit{{"publish.go", "\tcase 1, 2:\n\t\tif p.packetID == 0 {\n\t\t\treturn newMalformed(p, \"packet ID\", \"empty\")", "\tcase 1:\n\t\tif p.packetID == 0 {\n\t\t\treturn newMalformed(p, \"packet ID\", \"empty\")"}}},
 		{Name: "qos3-accepted", Rule: "R17.1", Where: "(*Publish).WellFormed", Edits: []Edit{{"publish.go", "\tcase 3:\n\t\treturn newMalformed(p, \"QoS\", \"invalid\")\n\t}\n\n\treturn nil", "\t}\n\n\treturn nil"}}},
@@ -383,6 +384,7 @@ func checkTopicFilterWF(p *Prog, c *Check) {
 	dom := map[string][]sv{keys[0]: lens(p.lenDomainFor(fn)...), keys[1]: allBytes()}
 	n := 0
 	bad := ""
+	extraTF := map[string]bool{}
 	product(keys, dom, func(a symAssign) bool {
 		n++
 		ctx := p.newSym(a.input(defaultInput))
@@ -392,6 +394,11 @@ func checkTopicFilterWF(p *Prog, c *Check) {
 			bad = "cannot evaluate the predicate: " + ctx.why
 			return false
 		}
+		for k := range ctx.seen {
+			if strings.HasPrefix(k, "P0.f") && k != keys[0] && k != keys[1] && !strings.HasPrefix(k, keys[0]+"[") {
+				extraTF[k] = true
+			}
+		}
 		want := a[keys[0]].i == 0 || a[keys[1]].i&3 == 3
 		if got := !isNilResult(rs[0]); got != want {
 			bad = fmt.Sprintf("filter length %d, options %#02x: WellFormed reports error=%v, the rule says %v", a[keys[0]].i, a[keys[1]].i, got, want)
@@ -399,7 +406,14 @@ func checkTopicFilterWF(p *Prog, c *Check) {
 		}
 		return true
 	})
-	if bad != "" {
+	if bad == "" && len(extraTF) > 0 {
+		var ks []string
+		for k := range extraTF {
+			ks = append(ks, k)
+		}
+		sort.Strings(ks)
+		c.Unk("R17.1", cons, p.Pos(fn.Pos()), "the predicate also reads "+strings.Join(ks, ", ")+", which the documented rule does not mention")
+	} else if bad != "" {
 		c.Bad("R17.1", cons, p.Pos(fn.Pos()), bad)
 	} else {
 		c.OK("R17.1", cons, p.Pos(fn.Pos()), fmt.Sprintf("error ⇔ filter empty ∨ (options & 3) = 3 on all %d assignments (lengths %v × 256 option bytes)", n, p.lenDomainFor(fn)))
@@ -436,6 +450,7 @@ func checkSubscribeWF(p *Prog, c *Check) {
 	const limit = 268435455
 	n := 0
 	bad := ""
+	extraSub := map[string]bool{}
 	for _, nf := range []int64{0, 1, 2, 3} {
 		// the identifier cell is unsigned: bit patterns above the int range are legal contents (SetSubscriptionID(-1))
 		subs := []int64{-1, 0, 1, limit, limit + 1, 1 << 31, 1<<32 - 1}
@@ -479,6 +494,11 @@ func checkSubscribeWF(p *Prog, c *Check) {
 					bad = "cannot evaluate the predicate: " + ctx.why
 					return false
 				}
+				for k := range ctx.seen {
+					if strings.HasPrefix(k, "P0.f") && !strings.HasPrefix(k, fpath(0, fFilters)) && k != fpath(0, fSub) {
+						extraSub[k] = true
+					}
+				}
 				want := nf == 0 || (subIdx != 0 && uint64(sub) > limit)
 				for k := int64(0); k < nf; k++ {
 					if a[keys[2*k]].i == 0 || a[keys[2*k+1]].i&3 == 3 {
@@ -500,7 +520,14 @@ func checkSubscribeWF(p *Prog, c *Check) {
 		}
 	}
 	c.Measured["subscribe_wellformed_assignments"] = n
-	if bad != "" {
+	if bad == "" && len(extraSub) > 0 {
+		var ks []string
+		for k := range extraSub {
+			ks = append(ks, k)
+		}
+		sort.Strings(ks)
+		c.Unk("R17.1", cons, p.Pos(fn.Pos()), "the predicate also reads "+strings.Join(ks, ", ")+", which the documented rule does not mention: a rule on a field that is never varied here would go unnoticed")
+	} else if bad != "" {
 		c.Bad("R17.1", cons, p.Pos(fn.Pos()), bad)
 	} else {
 		c.OK("R17.1", cons, p.Pos(fn.Pos()), fmt.Sprintf("error ⇔ no filter ∨ id > 268 435 455 ∨ some filter empty or requesting QoS 3, on all %d assignments (0–3 filters, id absent/0/1/limit/limit+1/2^31/2^32-1/2^63/2^64-2)", n))
